@@ -66,10 +66,17 @@ theorem vStep_shape {s s' : VSt} {e : Ev} (h : vStep s e = .ok s') :
             rw [guard_ok] at h; obtain ⟨_, h⟩ := h
             cases h; exact ⟨th, _, hth, hp, rfl, rfl, rfl, rfl, .inr ⟨_, _, rfl⟩⟩
           · split at h
-            · rw [guard_ok] at h; obtain ⟨_, h⟩ := h
+            · -- rm: pre-check under the read lock
               rw [guard_ok] at h; obtain ⟨_, h⟩ := h
-              cases h; exact ⟨th, _, hth, hp, rfl, rfl, rfl, rfl, .inr ⟨_, _, rfl⟩⟩
-            · cases h
+              rw [guard_ok] at h; obtain ⟨_, h⟩ := h
+              split at h
+              · cases h; exact ⟨th, _, hth, hp, rfl, rfl, rfl, rfl, .inr ⟨_, _, rfl⟩⟩
+              · cases h; exact ⟨th, _, hth, hp, rfl, rfl, rfl, rfl, .inl rfl⟩
+            · split at h
+              · rw [guard_ok] at h; obtain ⟨_, h⟩ := h
+                rw [guard_ok] at h; obtain ⟨_, h⟩ := h
+                cases h; exact ⟨th, _, hth, hp, rfl, rfl, rfl, rfl, .inr ⟨_, _, rfl⟩⟩
+              · cases h
       · -- rheld
         rw [guard_ok] at h; obtain ⟨_, h⟩ := h
         split at h
@@ -101,6 +108,15 @@ theorem vStep_shape {s s' : VSt} {e : Ev} (h : vStep s e = .ok s') :
           split at h
           · cases h
           · cases h; exact ⟨th, _, hth, hp, rfl, rfl, rfl, rfl, .inl rfl⟩
+      · -- rmRheld
+        rw [guard_ok] at h; obtain ⟨_, h⟩ := h
+        split at h
+        · cases h; exact ⟨th, _, hth, hp, rfl, rfl, rfl, rfl, .inl rfl⟩
+        · cases h; exact ⟨th, _, hth, hp, rfl, rfl, rfl, rfl, .inl rfl⟩
+      · -- rmNeedW
+        rw [guard_ok] at h; obtain ⟨_, h⟩ := h
+        rw [guard_ok] at h; obtain ⟨_, h⟩ := h
+        cases h; exact ⟨th, _, hth, hp, rfl, rfl, rfl, rfl, .inr ⟨_, _, rfl⟩⟩
 
 /-- an accepted call mark (also of an `inc` sub-call): the log is unchanged, the thread keeps program
     and call index -/
@@ -315,6 +331,49 @@ def subcallTrace : List Item :=
    .call 1 "0" "reset",
    .ev ⟨1, "X", "lk", "", 0, 0, 0, true⟩, .ev ⟨1, "x", "lk", "", 0, 0, 0, true⟩,
    .ret 1 "0" ""]
+
+
+/-- closed facts about the literals of the runs below -/
+theorem splitOn_rm_a : "rm:a".splitOn ":" = ["rm", "a"] := by split_on_lit
+theorem opName_rm_a : opName "rm:a" = "rm" := by simp [opName, splitOn_rm_a]
+theorem opArg_rm_a : opArg "rm:a" = "a" := by simp [opArg, splitOn_rm_a]
+theorem endsWith_1 : "1".endsWith "u" = false := by decide +kernel
+
+/-- one thread, `rm:a` on the empty vector: the key is looked up under the READ lock, it is absent, the
+    call returns "err" - no write lock is taken -/
+def rmAbsentTrace : List Item :=
+  [.call 0 "0" "rm:a",
+   .ev ⟨0, "R", "lk", "", 0, 0, 0, true⟩, .ev ⟨0, "r", "lk", "", 0, 0, 0, true⟩,
+   .ret 0 "0" "err"]
+
+/-- one thread: `with:a` (miss under the read lock, get-or-create under the write lock); then `rm:a`:
+    the read-locked lookup finds the key, the read lock is released, the key is removed under the write
+    lock, the call returns "ok" -/
+def rmPresentTrace : List Item :=
+  [.call 0 "0" "with:a",
+   .ev ⟨0, "R", "lk", "", 0, 0, 0, true⟩, .ev ⟨0, "r", "lk", "", 0, 0, 0, true⟩,
+   .ev ⟨0, "X", "lk", "", 0, 0, 0, true⟩, .ev ⟨0, "x", "lk", "", 0, 0, 0, true⟩,
+   .ret 0 "0" "h",
+   .call 0 "1" "rm:a",
+   .ev ⟨0, "R", "lk", "", 0, 0, 0, true⟩, .ev ⟨0, "r", "lk", "", 0, 0, 0, true⟩,
+   .ev ⟨0, "X", "lk", "", 0, 0, 0, true⟩, .ev ⟨0, "x", "lk", "", 0, 0, 0, true⟩,
+   .ret 0 "1" "ok"]
+
+/-- thread 0 as in `rmPresentTrace`, but thread 1 runs `reset` in the gap between thread 0's read-locked
+    lookup (key present) and its write-locked remove: the write-locked remove decides, the call returns
+    "err" -/
+def rmGapTrace : List Item :=
+  [.call 0 "0" "with:a",
+   .ev ⟨0, "R", "lk", "", 0, 0, 0, true⟩, .ev ⟨0, "r", "lk", "", 0, 0, 0, true⟩,
+   .ev ⟨0, "X", "lk", "", 0, 0, 0, true⟩, .ev ⟨0, "x", "lk", "", 0, 0, 0, true⟩,
+   .ret 0 "0" "h",
+   .call 0 "1" "rm:a",
+   .ev ⟨0, "R", "lk", "", 0, 0, 0, true⟩, .ev ⟨0, "r", "lk", "", 0, 0, 0, true⟩,
+   .call 1 "0" "reset",
+   .ev ⟨1, "X", "lk", "", 0, 0, 0, true⟩, .ev ⟨1, "x", "lk", "", 0, 0, 0, true⟩,
+   .ret 1 "0" "",
+   .ev ⟨0, "X", "lk", "", 0, 0, 0, true⟩, .ev ⟨0, "x", "lk", "", 0, 0, 0, true⟩,
+   .ret 0 "1" "err"]
 
 
 end Prom.C10
